@@ -1507,4 +1507,87 @@ pub mod verif_api {
             self.mgr.report_path_issue(ts, IssueKind::Socket { err: SendError::FirstHopUnreachable { isd_asn, interface_id, address: None, msg: "verif".into() } });
         }
     }
+
+    // C05-C07 read accessors (vp-pathmgr)
+    impl<F: PathFetcher> PathSetProbe<F> {
+        pub fn next_refetch(&self) -> SystemTime {
+            self.set.internal.next_refetch
+        }
+        pub fn failed_attempts(&self) -> u32 {
+            self.set.internal.failed_attempts
+        }
+        pub fn current_error(&self) -> Option<String> {
+            self.set.shared.sync.lock().unwrap().current_error.as_ref().map(|e| e.to_string())
+        }
+        pub fn undelivered_issues(&self) -> usize {
+            self.set.internal.issue_rx.len()
+        }
+        /// (issue id, marker timestamp) sorted by id
+        pub fn issue_cache(&self) -> Vec<(u64, SystemTime)> {
+            let g = self.mgr.0.issue_manager.lock().unwrap();
+            let mut v: Vec<_> = g.cache.iter().map(|(k, m)| (*k, m.timestamp)).collect();
+            v.sort();
+            v
+        }
+        /// FIFO in queue order
+        pub fn issue_fifo(&self) -> Vec<(u64, SystemTime)> {
+            self.mgr.0.issue_manager.lock().unwrap().fifo_issues.iter().copied().collect()
+        }
+    }
+}
+
+/// Verification hooks for the schedule explorer (vp-sched, C20; feature `verif-hooks`).
+#[cfg(feature = "verif-hooks")]
+#[allow(missing_docs)]
+pub mod verif_sched_api {
+    use super::*;
+
+    /// View of one `PathSetHandle` (the real handle, not a copy of its state).
+    #[derive(Clone)]
+    pub struct HandleProbe(PathSetHandle);
+
+    impl HandleProbe {
+        /// Identity of the shared state (equal for clones of the same handle).
+        pub fn id(&self) -> usize {
+            Arc::as_ptr(&self.0.shared) as usize
+        }
+        pub fn current_error(&self) -> Option<Arc<PathFetchError>> {
+            self.0.current_error()
+        }
+        /// Reads the active slot without marking the set as used.
+        pub fn has_active(&self) -> bool {
+            self.0.shared.active_path.load().is_some()
+        }
+        /// (initialized, ongoing_start.is_some())
+        pub fn flags(&self) -> (bool, bool) {
+            let g = self.0.shared.sync.lock().unwrap();
+            (g.initialized, g.ongoing_start.is_some())
+        }
+        /// Forward to the real `PathSetHandle::active_path`.
+        pub async fn active_path(&self) -> Option<ScionPath> {
+            self.0.active_path().await.as_ref().map(|p| p.0.clone())
+        }
+    }
+
+    impl<F: PathFetcher> MultiPathManager<F> {
+        /// Forward to the private `ensure_managed_paths`.
+        pub fn verif_ensure_handle(&self, src: IsdAsn, dst: IsdAsn) -> HandleProbe {
+            HandleProbe(self.ensure_managed_paths(src, dst))
+        }
+        /// Handle currently registered for the pair, if any (does not create one).
+        pub fn verif_peek_handle(&self, src: IsdAsn, dst: IsdAsn) -> Option<HandleProbe> {
+            self.0
+                .managed_paths
+                .peek_with(&(src, dst), |_, (handle, _)| HandleProbe(handle.clone()))
+        }
+    }
+
+    impl MultiPathManagerConfig {
+        /// The backoff has no public setter.
+        #[must_use]
+        pub fn verif_with_fetch_failure_backoff(mut self, backoff: BackoffConfig) -> Self {
+            self.fetch_failure_backoff = backoff;
+            self
+        }
+    }
 }
